@@ -330,7 +330,12 @@ AltsW(as) == LET F(D) == ImplRows(as, 0 - 1, D) IN Alts(Guards(as, <<>>, 0 - 1),
 \* the unchanged tree is among them (deviations whose guard is false change nothing)
 GuardsSufficeW == LET as == AtomsOf(conj) IN ImplRows(as, 0 - 1, Guards(as, <<>>, 0 - 1)) = ImplRows(as, 0 - 1, Deviations)
 
+\* pairs that are always replayed: two comparisons on ONE value column that meet at the same bound value from
+\* opposite sides or the same side (where min = max, where a bound is tightened to itself)
+Critical(cj) == Len(cj) = 2 /\ cj[1].col = cj[2].col /\ cj[1].col # "Epoch" /\ cj[1].op # "btw" /\ cj[2].op # "btw"
+                /\ cj[1].v = cj[2].v /\ cj[1].op # cj[2].op
 SampledW == \/ Len(conj) = 1
+            \/ Critical(conj)
             \/ (Len(conj) = 2 /\ (PairKey(conj) + 1) % SampleMod = 0)
             \/ (Len(conj) = 3 /\ (AtomKey(conj[3]) * 7 + AtomKey(conj[1])) % SampleMod = 0)
 EmitW == (conj # <<>> /\ SampledW) =>
